@@ -71,6 +71,7 @@ pub fn fuzz_eval(target: &str, data: &[u8]) -> Option<crate::engine::CaseResult>
             let case = c10::case_from_bytes(data).ok()?;
             Some(crate::engine::fuzz::eval_case(|rec| c10::check_case(&case, rec)))
         }
+        "c15_roundtrip" => Some(crate::engine::fuzz::eval_case(|rec| c15::fuzz_check(data, rec))),
         "c16_glyf" => {
             let case = c16::case_from_bytes(data).ok()?;
             Some(crate::engine::fuzz::eval_case(|rec| c16::check_case(&case, rec)))
@@ -104,6 +105,7 @@ pub fn fuzz_target_property(target: &str) -> Option<&'static str> {
         "c04_gsub" => Some("C04"),
         "c18_type2" => Some("C18"),
         "c11_woff2" => Some("C11"),
+        "c15_roundtrip" => Some("C15"),
         "c16_glyf" => Some("C16"),
         "c06_cmap" => Some("C06"),
         "c10_container" => Some("C10"),
